@@ -1,5 +1,5 @@
 use cosmwasm_std::{
-    coin, ensure, Addr, BankMsg, Coin, CosmosMsg, Decimal, DepsMut, Env, MessageInfo, Response,
+    coin, ensure, Addr, BankMsg, Coin, CosmosMsg, DepsMut, Env, MessageInfo, Response,
     Uint128,
 };
 use std::collections::HashSet;
@@ -325,9 +325,8 @@ pub(crate) fn withdraw_position(
         let emergency_penalty =
             calculate_emergency_penalty(&position, base_emergency_penalty, current_time)?;
 
-        let total_penalty_fee = Decimal::from_ratio(position.lp_asset.amount, Uint128::one())
-            .checked_mul(emergency_penalty)?
-            .to_uint_floor();
+        // multiply in 256 bits: a `Decimal` only holds integers below ~3.4e20
+        let total_penalty_fee = position.lp_asset.amount.mul_floor(emergency_penalty);
 
         // sanity check
         ensure!(
@@ -336,9 +335,7 @@ pub(crate) fn withdraw_position(
         );
 
         // calculate the penalty fee that goes to the owner of the farm
-        let owner_penalty_fee_comission = Decimal::from_ratio(total_penalty_fee, Uint128::one())
-            .checked_mul(PENALTY_FEE_SHARE)?
-            .to_uint_floor();
+        let owner_penalty_fee_comission = total_penalty_fee.mul_floor(PENALTY_FEE_SHARE);
 
         let mut penalty_fee_fee_collector =
             total_penalty_fee.saturating_sub(owner_penalty_fee_comission);
@@ -379,11 +376,8 @@ pub(crate) fn withdraw_position(
             penalty_fee_fee_collector = total_penalty_fee;
         } else {
             // send penalty to farm owners
-            let penalty_fee_share_per_farm_owner = Decimal::from_ratio(
-                owner_penalty_fee_comission,
-                unique_farm_owners.len() as u128,
-            )
-            .to_uint_floor();
+            let penalty_fee_share_per_farm_owner = owner_penalty_fee_comission
+                .multiply_ratio(1u128, unique_farm_owners.len() as u128);
 
             // if the farm owner penalty fee is greater than zero, send it to the farm owners,
             // otherwise send the whole penalty fee to the fee collector
